@@ -1,12 +1,12 @@
 #!/bin/bash
 # Apply every seeded change to /repo in turn, run the owning property's quick check, undo the change.
 # Usage: ./tools_seed_sweep.sh [ID ...]   (writes seeded/<id>/sweep.txt; never leaves /repo modified)
-cd "$(dirname "$0")"
+cd "$(dirname "$0")"; V=$(pwd)
 ids=${@:-$(ls seeded)}
 for id in $ids; do
   git -C /repo checkout -- . 2>/dev/null
-  if ! git -C /repo apply --check seeded/$id/patch.diff 2>/dev/null; then echo "$id: PATCH DOES NOT APPLY" | tee seeded/$id/sweep.txt; continue; fi
-  git -C /repo apply seeded/$id/patch.diff
+  if ! git -C /repo apply --check $V/seeded/$id/patch.diff 2>/dev/null; then echo "$id: PATCH DOES NOT APPLY" | tee seeded/$id/sweep.txt; continue; fi
+  git -C /repo apply $V/seeded/$id/patch.diff
   out=$(timeout 1500 ./check $id quick 2>&1); rc=$?
   git -C /repo checkout -- .
   v=$(echo "$out" | grep -c '^VIOLATION')
